@@ -53,7 +53,10 @@ func verifScaleBodyT(requests int, targets []int, maxIdx int, variants bool) {
 			_ = nm
 		}
 	}
-	r := vRunner(prj, false)
+	// the final project shutdown is the default or the ordered one (it looks the replicas up
+	// by their current names)
+	ordered := verifChooseK("ordered.shutdown", 2) == 1
+	r := vRunner(prj, ordered)
 	runDone := make(chan error, 1)
 	go func() { runDone <- r.Run() }()
 	verifQuiesce()
@@ -146,6 +149,16 @@ func verifScaleBodyT(requests int, targets []int, maxIdx int, variants bool) {
 				delete(w.behavKey, key)
 				w.mu.Unlock()
 			}
+		}
+	}
+	// a replica is addressed by its current name: stopping the last one by name works
+	if verifChooseK("stop.last.replica.by.name", 2) == 1 {
+		last := (&types.ProcessConfig{Name: "p", Replicas: cur, ReplicaNum: cur - 1}).CalculateReplicaName()
+		key := "p/" + strconv.Itoa(cur-1)
+		if vGet(w.aliveKey, key) == 1 {
+			verifAssert("stop.by.current.name.succeeds", r.StopProcess(last) == nil)
+			verifQuiesce()
+			verifAssert("stopped.replica.terminated", vGet(w.aliveKey, key) == 0)
 		}
 	}
 	_ = r.ShutDownProject()
